@@ -40,6 +40,7 @@ type c17cfg struct {
 	history     bool
 	healAfter   int // history family: the TCP side fails for the first healAfter TCP queries/dials, then answers
 	tcpEvents   int
+	twin        bool // family: two byte-identical queries in flight, both truncated over UDP
 	slow        bool // family: late UDP replies (after the 1 s retransmission), slow TCP replies, 2 s caller deadlines
 	udpPlanned  map[int]bool
 	tcpAnsweredAt map[int]time.Duration
@@ -71,6 +72,10 @@ func c17Setup(rc *RunCtx) simrt.Config {
 		c.slow = true
 		c.pTC = []int{50, 100}[r.Choose(2)]
 	}
+	if !c.history && !c.slow && r.Choose(10) == 0 {
+		c.twin = true
+	}
+	rc.Cfg["twin"] = c.twin
 	rc.Cfg["slow"] = c.slow
 	rc.Cfg["history"] = c.history
 	rc.Net.ChunkMode = r.Choose(3)
@@ -83,10 +88,115 @@ func c17Setup(rc *RunCtx) simrt.Config {
 	return cfg
 }
 
+// c17Twin: two callers send byte-identical queries (same question, same ID: a
+// client retransmission, or two clients behind the same forwarder) at almost the
+// same time; both UDP replies are truncated; the TCP side answers after 400 ms.
+// The first caller's context ends early. The second caller's exchange is its
+// own: it must get the TCP reply.
+func c17Twin(rc *RunCtx, c *c17cfg, w *W1) {
+	tcpQueries := 0
+	rc.Net.Handle("udp", srvAddr, func(sc *simnet.Conn) {
+		for {
+			q, err := sc.ReadMsg()
+			if err != nil {
+				sc.Close()
+				return
+			}
+			wid, _, ok := parseQuery(q)
+			if !ok {
+				continue
+			}
+			b, info := w.MakeReply(q, ReplyInfo{Call: 0, Conn: sc.ID, WireID: wid, Kind: "udp"}, true, 0)
+			simrt.Fault("udp_reply_truncated")
+			sc.WriteMsg(b, info)
+		}
+	})
+	rc.Net.Handle("tcp", srvAddr, func(sc *simnet.Conn) {
+		for {
+			q, err := sc.ReadMsg()
+			if err != nil {
+				if !sc.IsClosed() {
+					sc.Close()
+				}
+				return
+			}
+			wid, _, ok := parseQuery(q)
+			if !ok {
+				continue
+			}
+			tcpQueries++
+			simrt.Sleep(0, 400*time.Millisecond)
+			if sc.IsClosed() {
+				return
+			}
+			b, info := w.MakeReply(q, ReplyInfo{Call: 0, Conn: sc.ID, WireID: wid, Kind: "tcp"}, false, 0)
+			sc.WriteMsg(b, info)
+		}
+	})
+	u, err := upstream.NewUpstream("udp://"+srvAddr, upstream.Opt{})
+	if err != nil {
+		panic(err)
+	}
+	a := w.NewCall(0, 0, uint16(simrt.Choose(65536)), 1)
+	bq := append([]byte(nil), a.Query...)
+	dA := []time.Duration{50 * time.Millisecond, 100 * time.Millisecond, 300 * time.Millisecond, 2 * time.Second}[simrt.Choose(4)]
+	lag := []time.Duration{0, time.Millisecond, 20 * time.Millisecond}[simrt.Choose(3)]
+	done := make(chan struct{}, 2)
+	simrt.GoNamed("twinA", func() {
+		ctx, cancel := context.WithTimeout(context.Background(), dA)
+		a.Ctx = ctx
+		w.Exchange(u, a)
+		cancel()
+		simrt.Send(0, done, struct{}{})
+	})
+	var bResp []byte
+	var bErr error
+	var bEnd, bStart time.Duration
+	simrt.GoNamed("twinB", func() {
+		if lag > 0 {
+			simrt.Sleep(0, lag)
+		}
+		ctx, cancel := context.WithTimeout(context.Background(), 20*time.Second)
+		defer cancel()
+		bStart = simrt.S.Elapsed()
+		r, err := u.ExchangeContext(ctx, bq)
+		bEnd, bErr = simrt.S.Elapsed(), err
+		if err == nil && r != nil {
+			bResp = append([]byte(nil), (*r)...)
+		}
+		simrt.Send(0, done, struct{}{})
+	})
+	simrt.Recv(0, done)
+	simrt.Recv(0, done)
+	u.Close()
+	if rc.Viol != nil {
+		return
+	}
+	if bErr != nil {
+		rc.Fail("twin_query_failed", "two identical queries in flight, both truncated over UDP; the first caller's context ended after %v; the second caller (started t=%v, deadline 20s) failed at t=%v with %q although the TCP side answers every query after 400ms (TCP queries seen: %d)",
+			dA, bStart, bEnd, bErr, tcpQueries)
+		return
+	}
+	nonce, qn, _, err := replyNonce(bResp)
+	if err != nil || qn != a.QName {
+		rc.Fail("twin_query_wrong_reply", "second caller got %v / %q", err, qn)
+		return
+	}
+	if info := w.Replies[nonce]; info.Kind != "tcp" {
+		rc.Fail("truncated_udp_reply_returned", "second of two identical queries: returned %v instead of a TCP reply", info)
+		return
+	}
+	simrt.Probe("c17.twin_ok")
+}
+
 func c17Main(rc *RunCtx) {
 	c := rc.priv.(*c17cfg)
 	w := newW1(rc)
 	c.w = w
+	if c.twin {
+		c17Twin(rc, c, w)
+		return
+	}
 	// UDP server: custom loop (flags are rewritten after building the reply)
 	rc.Net.Handle("udp", srvAddr, func(sc *simnet.Conn) {
 		for {
@@ -218,7 +328,15 @@ func c17Main(rc *RunCtx) {
 		}
 		return nil
 	}
-	u, err := upstream.NewUpstream("udp://"+srvAddr, upstream.Opt{})
+	opt := upstream.Opt{}
+	if simrt.Choose(6) == 0 {
+		// Socks5 is documented as not implemented for UDP upstreams (the forward
+		// plugin copies its global socks5 setting into every upstream): neither
+		// leg of a udp:// upstream may go to the proxy. Nothing listens there.
+		opt.Socks5 = "127.0.0.1:9"
+		rc.Cfg["socks5_set"] = true
+	}
+	u, err := upstream.NewUpstream("udp://"+srvAddr, opt)
 	if err != nil {
 		panic(err)
 	}
